@@ -384,11 +384,20 @@ macro_rules! impl_tryfrom_integer {
                                     Err(lexical_core::Error::Underflow(0).into())
                                 } else {
                                     // <f32|f64>::round() doesn't exist in no_std...
-                                    // Safe because value is checked to be normal and within bounds earlier
-                                    if value.is_sign_positive() {
-                                        Ok(unsafe { (value + 0.5).to_int_unchecked() })
+                                    let rounded = if value.is_sign_positive() {
+                                        value + 0.5
                                     } else {
-                                        Ok(unsafe { (value - 0.5).to_int_unchecked() })
+                                        value - 0.5
+                                    };
+                                    // `MAX as float` rounds up to MAX + 1 for the 64 bit types, so the
+                                    // check above lets 2^63 / 2^64 through. Compare with the exactly
+                                    // representable MAX + 1 before the unchecked cast.
+                                    let limit = (<$from>::MAX / 2 + 1) as $intermediate * 2.0;
+                                    if rounded >= limit {
+                                        Err(lexical_core::Error::Overflow(0).into())
+                                    } else {
+                                        // Safe because value is checked to be normal and within bounds
+                                        Ok(unsafe { rounded.to_int_unchecked() })
                                     }
                                 }
                             } else {
